@@ -9,7 +9,8 @@ import ast as pyast
 
 IMPORTS = 'From Tranp Require Import Model.Peg Model.Lexer Properties.C12.'
 SYMS = ['a', 'b', 'c', 'item', 'expr2', 'x_1', 'entry', 'tail']
-TERMS = ['"x"', '"+"', '"if"', '"("', '")"', '"\\n"', '","', '"=="']
+TERMS = ['"x"', '"+"', '"if"', '"("', '")"', '"\\n"', '","', '"=="',
+         '"\\INDENT"', '"\\DEDENT"', '"\\OP_UNARY_MINUS"', '"\\t"', '"a\\b"']     # terminals with a backslash: the special symbols of py_gram.lark, a control code, a plain one
 REGEXPS = ['/[a-z]+/', '/\\d+/', '/[*+?]/', '/a|b/', "/\\'[^\\']*\\'/", '/[\\/]x/', '/\\w\\d*/',
            '/[.]|\\//', '/\\/\\*x\\*\\//', '/\\/+/', '/"[^"]*"/']     # bodies that begin / end with an escaped delimiter or hold the other quote
 
